@@ -73,7 +73,7 @@ add("C16", "model_checking",
     "trusted: json.rs and c16::expected (serde derive conventions of the public types, pinned by the repository's YAML snapshots)",
     "bounded-exhaustive enumeration of results with an independent reader and hand-built expected tree", "DESIGN.md §5 C16", "E-ENUM")
 add("C17", "model_checking",
-    "Step 0 builds the library with --no-default-features (failure is the violation). Then the default build and the feature-off build of the same harness each walk every index of C04's and C05's conformant stream spaces, recording a digest of (decoded results, re-export, common view) per index: known-only streams must agree exactly between the builds; streams with a field the library types Unknown must yield no decoded record containing it in the feature-off build (and do yield it in the default build), and their known-only PACKETS (classified by the reference decode of the bytes) must agree between the builds too; two further stream spaces redefine an id across packets between a definition with an unknown field and a known-only one, in both directions.",
+    "Step 0 builds the library with --no-default-features (failure is the violation). Then the default build and the feature-off build of the same harness each walk every index of C04's and C05's conformant stream spaces, recording a digest of (decoded results, re-export, common view) per index: known-only streams must agree exactly between the builds; streams with a field the library types Unknown must yield no decoded record containing it in the feature-off build (and do yield it in the default build), and their known-only PACKETS (classified by the reference decode of the bytes) must agree between the builds too; two further stream spaces redefine an id across packets between a definition with an unknown field and a known-only one, in both directions; two more announce V9 / IPFIX options templates with an unknown field at every position of the scope or option part, data in the same packet or in a later call.",
     "trusted: c17::observe; enterprise-specific fields are outside the unknown-field clause",
     "cross-configuration differential enumeration over the bounded stream spaces", "DESIGN.md §5 C17", "E-ENUM")
 
